@@ -9,7 +9,7 @@
    No proofs here.  The model describes /repo after the fixes 0fedb86, 222ce93, 2cf0b5a,
    cafb4ab, ff837ac (delete_transactions rebuilds utxo_map from the transactions that are
    still pooled; add_block_transactions_back re-inserts through add_transaction) and the
-   producer-side fixes f62222f, e0300b2, 1214e31, 9879695 (see bundle_block below; 9879695 --
+   producer-side fixes f62222f, e0300b2, 1214e31, 9879695, ffb4da9 (see bundle_block below; 9879695 --
    a BlockStake transaction whose inputs are not the node's own is refused on arrival -- is
    part of the oracle bit [t_ok], which for BlockStake is the whole verdict anyway).
 
@@ -238,11 +238,8 @@ Definition bundle_core (ledger : list N) (p : pool) (env_ok : bool) (work_needed
       if dup_spend block then
         Ok (rebuild_utxo_map (mkP k (umap p1) (sum_work k) (fresh p1) (gts p1)), None)
       else
-        (* reservations are released for the inputs of the block's transactions only: the
-           other inputs of a left-out transaction stay in utxo_map until the next
-           delete_transactions *)
-        Ok (mkP [] (fold_left (fun m k => srem k m) (block_keys block) (umap p1)) 0 false (gts p1),
-            Some block)
+        (* the pool has been drained: rebuild_utxo_map() leaves an empty index (ffb4da9) *)
+        Ok (rebuild_utxo_map (mkP [] (umap p1) 0 false (gts p1)), Some block)
   end.
 
 Definition bundle_block (ledger : list N) (p : pool) (ts_ok : bool) (bad_gt : option N)
@@ -261,25 +258,6 @@ Definition create_fails (ledger : list N) (p : pool) (env_ok : bool) (work_neede
                | Ok p1 => dup_spend (kept extra (txs p1) ++ extra)
                | _ => false
                end
-  end.
-
-(* a block is produced, and a left-out transaction has an input that no transaction of the
-   block names: its reservation outlives the transaction *)
-Definition leaves_stale (ledger : list N) (p : pool) (env_ok : bool) (work_needed : N)
-           (stake : option tx) (extra : list tx) : bool :=
-  can_bundle_block p env_ok work_needed &&
-  match stake with
-  | None => false
-  | Some st =>
-      match add_transaction_if_validates ledger p st with
-      | Ok p1 =>
-          let block := kept extra (txs p1) ++ extra in
-          negb (dup_spend block) &&
-          existsb (fun t => left_out (rebroadcast_keys extra) t &&
-                            existsb (fun k => negb (mem k (block_keys block))) (in_keys t))
-                  (txs p1)
-      | _ => false
-      end
   end.
 
 (* ---- system state and operations ---- *)
@@ -323,14 +301,6 @@ Definition ev_failed_create (s : state) (o : op) : bool :=
   match o with
   | OBundle true bg env wn stake extra =>
       create_fails (ledger s) (drop_bad_gt (pl s) bg) env wn stake extra
-  | _ => false
-  end.
-
-(* a successful bundle leaves a reservation of a left-out transaction behind *)
-Definition ev_left_out_stale (s : state) (o : op) : bool :=
-  match o with
-  | OBundle true bg env wn stake extra =>
-      leaves_stale (ledger s) (drop_bad_gt (pl s) bg) env wn stake extra
   | _ => false
   end.
 
